@@ -137,27 +137,40 @@ pub fn exec(func: &str, a: &mut Args) -> String {
         // The pinned `intersection_with_local_plane` never terminates (and allocates without bound) on sections that are
         // open polylines, so the real call runs in a child process that is killed after a time budget -> `hang`.
         f if calls_section(f) && std::env::var("C17_CHILD").is_err() => {
-            use std::io::Write;
+            use std::io::{Read, Write};
             use std::process::{Command, Stdio};
+            use std::sync::atomic::{AtomicUsize, Ordering};
+            // A child that does not answer within 150 ms is retried once with a 3 s budget (a loaded machine can take longer than
+            // 150 ms just to start the process); after 3 confirmed hangs the retry is dropped so that a tree that really hangs
+            // on many inputs does not make the run crawl.
+            static CONFIRMED_HANGS: AtomicUsize = AtomicUsize::new(0);
             let line = format!("C17 {} {}\n", func, a.t[a.i..].join(" "));
-            let mut child = Command::new(std::env::current_exe().expect("exe")).arg("exec").env("C17_CHILD", "1")
-                .stdin(Stdio::piped()).stdout(Stdio::piped()).stderr(Stdio::null()).spawn().expect("spawn");
-            child.stdin.take().unwrap().write_all(line.as_bytes()).expect("write");
-            let t0 = std::time::Instant::now();
-            loop {
-                match child.try_wait() {
-                    Ok(Some(_)) => break,
-                    Ok(None) => {
-                        if t0.elapsed().as_millis() > 150 { let _ = child.kill(); let _ = child.wait(); return "hang".into(); }
-                        std::thread::sleep(std::time::Duration::from_millis(2));
+            let run = |budget_ms: u128| -> Option<String> {
+                let mut child = Command::new(std::env::current_exe().expect("exe")).arg("exec").env("C17_CHILD", "1")
+                    .stdin(Stdio::piped()).stdout(Stdio::piped()).stderr(Stdio::null()).spawn().expect("spawn");
+                child.stdin.take().unwrap().write_all(line.as_bytes()).expect("write");
+                let t0 = std::time::Instant::now();
+                loop {
+                    match child.try_wait() {
+                        Ok(Some(_)) => break,
+                        Ok(None) => {
+                            if t0.elapsed().as_millis() > budget_ms { let _ = child.kill(); let _ = child.wait(); return None; }
+                            std::thread::sleep(std::time::Duration::from_millis(2));
+                        }
+                        Err(_) => return None,
                     }
-                    Err(_) => return "hang".into(),
                 }
+                let mut out = String::new();
+                let _ = child.stdout.take().unwrap().read_to_string(&mut out);
+                Some(match out.trim().split(" | ").nth(1) { Some(o) => o.to_string(), None => "hang".into() })
+            };
+            match run(150) {
+                Some(o) => o,
+                None if CONFIRMED_HANGS.load(Ordering::Relaxed) < 3 => match run(3000) {
+                    Some(o) => o,
+                    None => { CONFIRMED_HANGS.fetch_add(1, Ordering::Relaxed); "hang".into() } },
+                None => "hang".into(),
             }
-            let mut out = String::new();
-            use std::io::Read;
-            let _ = child.stdout.take().unwrap().read_to_string(&mut out);
-            match out.trim().split(" | ").nth(1) { Some(o) => o.to_string(), None => "hang".into() }
         }
         "tm_section_m" => { let m = mesh(a); let n = d3::v(a); let bias = a.f(); let eps = a.f();
             fsection(m.intersection_with_local_plane(&Unit::new_unchecked(n), bias, eps)) }
